@@ -10,6 +10,7 @@ import (
 	"os/exec"
 	"path/filepath"
 	"regexp"
+	"runtime/pprof"
 	"sort"
 	"strconv"
 	"strings"
@@ -539,6 +540,11 @@ func runWorker(id, shardJSON string) int {
 		return 2
 	}
 	w := newW(sh)
+	if pf := os.Getenv("VERIF_PROF"); pf != "" {
+		f, _ := os.Create(pf)
+		pprof.StartCPUProfile(f)
+		defer pprof.StopCPUProfile()
+	}
 	c.Run(w)
 	js, err := json.Marshal(&w.R)
 	if err != nil {
